@@ -272,7 +272,8 @@ func w4project(layout int) (*ld.Case, []refFile) {
 			main += fmt.Sprintf("  o%d:\n    image: img\n    env_file:\n      - path: %sreq.env\n        required: false\n", i, d)
 		}
 	}
-	c := &ld.Case{Files: map[string]string{"compose.yaml": main}, ComposeFiles: []string{"compose.yaml", "override.yaml"}}
+	// (a name in the file: some cases run without an imperatively set project name)
+	c := &ld.Case{Files: map[string]string{"compose.yaml": "name: w4proj\n" + main}, ComposeFiles: []string{"compose.yaml", "override.yaml"}}
 	for _, r := range refs {
 		c.Files[r.Path] = r.Content
 	}
@@ -288,6 +289,9 @@ func runW4(s *core.Shard, next func(string) bool) {
 				continue
 			}
 			c := &ld.Case{Files: map[string]string{}, ComposeFiles: base.ComposeFiles}
+			if (layout+mask)%2 == 1 {
+				c.Opts.Name = "-" // no project name given: the loader looks for one in the files first
+			}
 			for k, v := range base.Files {
 				c.Files[k] = v
 			}
@@ -320,11 +324,14 @@ func runW4(s *core.Shard, next func(string) bool) {
 		}
 		// each single file replaced by a directory or a dangling symlink
 		for i, r := range refs {
-			for _, fault := range []string{"directory", "dangling-symlink"} {
-				if !next(fmt.Sprintf("w4/%s/%d/%d", fault, layout, i)) {
+			for fi, fault := range []string{"directory", "dangling-symlink", "directory", "dangling-symlink"} {
+				if !next(fmt.Sprintf("w4/%s/%d/%d/%d", fault, layout, i, fi/2)) {
 					continue
 				}
 				c := &ld.Case{Files: map[string]string{}, ComposeFiles: base.ComposeFiles}
+				if fi >= 2 {
+					c.Opts.Name = "-"
+				}
 				for k, v := range base.Files {
 					c.Files[k] = v
 				}
